@@ -99,8 +99,29 @@ func decodeUpdate(f *model.FieldInfo, tv *gpb.TypedValue) (string, error) {
 
 // orderedEqual says whether all ordered lists of a and b are identical (same entries, same order).
 func orderedEqual(a, b *model.Node) bool {
-	oa, ob := ordDump(a), ordDump(b)
-	return oa == ob
+	return ordDump(a) == ordDump(b) && ordContent(a) == ordContent(b)
+}
+
+// ordContent renders the content of all ordered-list entries canonically (sorted path views), so that
+// the order in which the model happens to hold nested unordered lists does not matter.
+func ordContent(n *model.Node) string {
+	var sb strings.Builder
+	for _, s := range model.Sites(n) {
+		for _, f := range s.N.SI.Fields {
+			if f.Kind == model.FOrdList && len(s.N.List[f.Name]) > 0 {
+				for _, e := range s.N.List[f.Name] {
+					lm := model.LeafMap(e.N, model.InstOpts{})
+					var ks []string
+					for k, x := range lm {
+						ks = append(ks, k+"="+x)
+					}
+					sort.Strings(ks)
+					sb.WriteString(model.ElemsID(s.Elems) + "/" + f.Name + "[" + model.KeyCanon(e.Key) + "]{" + strings.Join(ks, ";") + "}\n")
+				}
+			}
+		}
+	}
+	return sb.String()
 }
 
 func ordDump(n *model.Node) string {
@@ -109,8 +130,10 @@ func ordDump(n *model.Node) string {
 		for _, f := range s.N.SI.Fields {
 			if f.Kind == model.FOrdList && len(s.N.List[f.Name]) > 0 {
 				sb.WriteString(model.ElemsID(s.Elems) + "/" + f.Name + "\n")
+				// the key sequence only: the content of the entries is compared through the leaf sets, and a
+				// dump of it would depend on the (meaningless) order of nested unordered lists
 				for _, e := range s.N.List[f.Name] {
-					sb.WriteString(model.KeyCanon(e.Key) + "{" + e.N.Dump() + "}\n")
+					sb.WriteString(model.KeyCanon(e.Key) + "\n")
 				}
 			}
 		}
